@@ -1,6 +1,6 @@
-CONSTANT MaxGen = 4
+CONSTANT MaxGen = 3
 CONSTANT NDig = 3
-CONSTANT MaxRevs = 6
+CONSTANT MaxRevs = 5
 CONSTANT MaxSteps = 6
 CONSTANT Reps <- Two
 CONSTANT Depths = {1, 2}
